@@ -142,3 +142,201 @@ Proof.
   - destruct cursor as [[x cy]|]; [destruct (0 <=? cy)|]; lia.
   - intros ->. lia.
 Qed.
+
+(* ---------- escaping ---------- *)
+Lemma html_escape_app a b : html_escape (a ++ b) = html_escape a ++ html_escape b.
+Proof. unfold html_escape. apply flat_map_app. Qed.
+
+Lemma escape_chr_len c : (1 <= length (escape_chr c))%nat.
+Proof. unfold escape_chr. repeat (destruct (_ =? _); [cbn; lia|]). cbn. lia. Qed.
+
+Lemma read_entity_escape c rest :
+  (exists e, escape_chr c = e /\ c <> 38 /\ c <> 60 /\ c <> 62 /\ c <> 34 /\ c <> 39 /\ e = [c] /\
+             read_entity entities (c :: rest) = None)
+  \/ read_entity entities (escape_chr c ++ rest) = Some (c, rest).
+Proof.
+  unfold escape_chr.
+  destruct (c =? 38) eqn:E1; [right; assert (c = 38) by lia; subst; vm_compute; reflexivity|].
+  destruct (c =? 60) eqn:E2; [right; assert (c = 60) by lia; subst; vm_compute; reflexivity|].
+  destruct (c =? 62) eqn:E3; [right; assert (c = 62) by lia; subst; vm_compute; reflexivity|].
+  destruct (c =? 34) eqn:E4; [right; assert (c = 34) by lia; subst; vm_compute; reflexivity|].
+  destruct (c =? 39) eqn:E5; [right; assert (c = 39) by lia; subst; vm_compute; reflexivity|].
+  left. exists [c]. splits_; try lia; try reflexivity.
+  unfold entities, read_entity, strip_prefix. assert (E : 38 =? c = false) by lia. rewrite E. reflexivity.
+Qed.
+
+(* reading the emitted markup gives the text back, whatever the text *)
+Lemma unescape_escape s : forall fuel, (length (html_escape s) <= fuel)%nat -> html_unescape fuel (html_escape s) = s.
+Proof.
+  induction s as [|c s IH]; intros fuel Hf.
+  - destruct fuel; reflexivity.
+  - change (html_escape (c :: s)) with (escape_chr c ++ html_escape s) in *.
+    rewrite app_length in Hf. pose proof (escape_chr_len c) as Hl.
+    destruct fuel as [|k]; [lia|].
+    destruct (read_entity_escape c (html_escape s)) as [(e & E & _ & _ & _ & _ & _ & -> & Hnone)|Hsome].
+    + rewrite E in *. cbn [app html_unescape]. rewrite Hnone. f_equal. apply IH. cbn in Hf. lia.
+    + destruct (escape_chr c ++ html_escape s) as [|x r] eqn:El.
+      { destruct (escape_chr c); [cbn in Hl; lia|discriminate]. }
+      cbn [html_unescape]. rewrite Hsome. f_equal. apply IH. lia.
+Qed.
+
+Definition row_markup (spans : list hspan) : list Z := flat_map span_markup spans.
+Definition read_markup (m : list Z) : list Z := html_unescape (length m) m.
+
+Lemma row_markup_escape spans : row_markup spans = html_escape (map fst (spans_text spans)).
+Proof.
+  induction spans as [|s spans IH]; [reflexivity|].
+  cbn [row_markup flat_map spans_text]. fold (row_markup spans). fold (spans_text spans).
+  rewrite map_app, html_escape_app, IH. reflexivity.
+Qed.
+
+(* reading the markup of every emitted row gives exactly the code points of the canvas row *)
+Theorem html_markup_reads_back_lemma maxrow rows cursor out :
+  html_draw maxrow rows cursor = Ok out ->
+  map (fun spans => read_markup (row_markup spans)) out = map (fun row => map fst (row_text row)) rows.
+Proof.
+  intros H. destruct (html_exact_lemma _ _ _ _ H) as (T & _).
+  rewrite <- (map_map row_text (map fst)). rewrite <- T. rewrite map_map.
+  apply map_ext. intros spans. unfold read_markup. rewrite row_markup_escape. apply unescape_escape. lia.
+Qed.
+
+(* ---------- the highlighted cell is the character under the canvas cursor ---------- *)
+Definition nonneg_widths (t : list chr) : Prop := Forall (fun ch : chr => 0 <= snd ch) t.
+
+Lemma calc_width_app' a b : calc_width (a ++ b) = calc_width a + calc_width b.
+Proof. induction a; cbn [calc_width app]; lia. Qed.
+
+Lemma calc_width_nn t : nonneg_widths t -> 0 <= calc_width t.
+Proof. induction 1; cbn [calc_width]; lia. Qed.
+
+(* calc_text_pos: the character that covers column k *)
+Lemma text_pos_covers t : forall k i sc, nonneg_widths t -> sc <= k < sc + calc_width t ->
+  exists pre c post, t = pre ++ c :: post /\ text_pos_utf8 t k i sc = (i + zlen pre, sc + calc_width pre) /\
+                     sc + calc_width pre <= k < sc + calc_width pre + snd c.
+Proof.
+  induction t as [|ch t IH]; intros k i sc Hw Hk.
+  - cbn [calc_width] in Hk. lia.
+  - inversion Hw as [|? ? Hch Hw']; subst. cbn [calc_width] in Hk. cbn [text_pos_utf8].
+    destruct (k <? snd ch + sc) eqn:E.
+    + exists [], ch, t. cbn [app calc_width]. rewrite zlen_nil. splits_; auto; try lia. f_equal; lia.
+    + destruct (IH k (i + 1) (sc + snd ch) Hw') as (pre & c & post & -> & Ep & Hr); [lia|].
+      exists (ch :: pre), c, post. cbn [app calc_width]. rewrite zlen_cons. splits_; auto; try lia.
+      rewrite Ep. f_equal; lia.
+Qed.
+
+Definition one_highlight (spans : list hspan) (pre : list chr) (c : chr) (post : list chr) : Prop :=
+  exists s1 a s2, spans = s1 ++ HSpan a true [c] :: s2 /\ n_swapped s1 = 0 /\ n_swapped s2 = 0 /\
+                  spans_text s1 = pre /\ spans_text s2 = post.
+
+Lemma html_span_cursor a s k sp : nonneg_widths s -> 0 <= k < calc_width s -> html_span a s k = Ok sp ->
+  exists pre c post, s = pre ++ c :: post /\ one_highlight sp pre c post /\ calc_width pre <= k < calc_width pre + snd c.
+Proof.
+  intros Hw Hk. unfold html_span. assert (E : 0 <=? k = true) by lia. rewrite E.
+  destruct (text_pos_covers s k 0 0 Hw) as (pre & c & post & -> & Ep & Hr); [lia|]. rewrite Ep.
+  pose proof (zlen_nonneg pre) as Hp. pose proof (zlen_nonneg post) as Hq.
+  destruct (zlen (pre ++ c :: post) <=? 0 + zlen pre) eqn:El; [rewrite zlen_app, zlen_cons in El; lia|].
+  intros H. inversion H; subst sp; clear H.
+  exists pre, c, post. splits_; auto; try lia.
+  replace (0 + zlen pre) with (zlen pre) by lia.
+  rewrite takez_app_exact by reflexivity. rewrite dropz_app_exact by reflexivity.
+  replace (pre ++ c :: post) with ((pre ++ [c]) ++ post) by (now rewrite <- app_assoc).
+  rewrite dropz_app_exact by (rewrite zlen_app, zlen_cons, zlen_nil; lia).
+  change (takez 1 (c :: post)) with [c].
+  exists [HSpan a false pre], a, [HSpan a false post]. unfold spans_text. cbn. rewrite !app_nil_r. splits_; reflexivity.
+Qed.
+
+Lemma no_highlight_spans on cx row col sp : html_runs on cx col row = Ok sp -> on && (col <=? cx) = false ->
+  n_swapped sp = 0 /\ spans_text sp = row_text row.
+Proof.
+  intros H E. destruct (html_runs_ok _ _ _ _ _ H) as (T & N & _). rewrite E in N. split; [lia|exact T].
+Qed.
+
+Lemma html_runs_cursor cx row : forall col sp,
+  nonneg_widths (row_text row) -> col <= cx < col + calc_width (row_text row) ->
+  html_runs true cx col row = Ok sp ->
+  exists pre c post, row_text row = pre ++ c :: post /\ one_highlight sp pre c post /\
+                     col + calc_width pre <= cx < col + calc_width pre + snd c.
+Proof.
+  induction row as [|[[a cs] run] rest IH]; intros col sp Hw Hk H.
+  - cbn in Hk. lia.
+  - cbn [html_runs] in H. change (row_text ((a, cs, run) :: rest)) with (map trans_chr run ++ row_text rest) in *.
+    apply Forall_app in Hw as [Hw1 Hw2]. rewrite calc_width_app' in Hk.
+    assert (Eon : true && (col <=? cx) = true) by lia. rewrite Eon in H.
+    set (w := calc_width (map trans_chr run)) in *.
+    destruct (cx <? col + w) eqn:Ehit.
+    + destruct (html_span a (map trans_chr run) (cx - col)) as [s1|] eqn:E1; [|discriminate]. cbn [bind] in H.
+      destruct (html_runs true cx (col + w) rest) as [s2|] eqn:E2; [|discriminate]. cbn [bind] in H.
+      inversion H; subst sp.
+      destruct (html_span_cursor a _ (cx - col) s1 Hw1) as (pre & c & post & Et & (h1 & ha & h2 & -> & N1 & N2 & T1 & T2) & Hr);
+        [fold w; lia|exact E1|].
+      destruct (no_highlight_spans _ _ _ _ _ E2) as [N3 T3]; [lia|].
+      exists pre, c, (post ++ row_text rest). rewrite Et, <- app_assoc. cbn [app]. splits_; auto; try lia.
+      exists h1, ha, (h2 ++ s2). rewrite <- app_assoc. cbn [app]. splits_; auto.
+      * rewrite n_swapped_app. lia.
+      * rewrite spans_text_app, T2, T3. reflexivity.
+    + destruct (html_span a (map trans_chr run) (-1)) as [s1|] eqn:E1; [|discriminate]. cbn [bind] in H.
+      destruct (html_runs true cx (col + w) rest) as [s2|] eqn:E2; [|discriminate]. cbn [bind] in H.
+      inversion H; subst sp. destruct (html_span_ok _ _ _ _ E1) as (T1 & N1 & _). change (n_swapped s1 = 0) in N1.
+      destruct (IH (col + w) s2 Hw2) as (pre & c & post & Et & (h1 & ha & h2 & -> & M1 & M2 & U1 & U2) & Hr); [lia|exact E2|].
+      exists (map trans_chr run ++ pre), c, post. rewrite Et, <- app_assoc. rewrite calc_width_app'. fold w.
+      splits_; auto; try lia.
+      exists (s1 ++ h1), ha, h2. rewrite <- app_assoc. splits_; auto.
+      * rewrite n_swapped_app. lia.
+      * rewrite spans_text_app, T1, U1. reflexivity.
+Qed.
+
+Lemma html_rows_cursor cx cy rows : forall y out row,
+  html_rows (Some (cx, cy)) y rows = Ok out -> 0 <= y -> nthz rows (cy - y) = Some row ->
+  nonneg_widths (row_text row) -> 0 <= cx < calc_width (row_text row) ->
+  exists spans pre c post, nthz out (cy - y) = Some spans /\ row_text row = pre ++ c :: post /\
+     one_highlight spans pre c post /\ calc_width pre <= cx < calc_width pre + snd c.
+Proof.
+  induction rows as [|r rest IH]; intros y out row H Hy Hn Hw Hk.
+  - unfold nthz in Hn. destruct (cy - y <? 0); [discriminate|]. destruct (Z.to_nat (cy - y)); discriminate.
+  - cbn [html_rows] in H.
+    destruct (html_runs (y =? cy) cx 0 r) as [spans|] eqn:E1; [|discriminate]. cbn [bind] in H.
+    destruct (html_rows (Some (cx, cy)) (y + 1) rest) as [more|] eqn:E2; [|discriminate]. cbn [bind] in H.
+    inversion H; subst out.
+    assert (Hge : 0 <= cy - y) by (unfold nthz in Hn; destruct (cy - y <? 0) eqn:E; [discriminate|lia]).
+    destruct (Z.eq_dec cy y) as [->|Hne].
+    + replace (y - y) with 0 in * by lia. cbn in Hn. inversion Hn; subst r.
+      assert (Ey : y =? y = true) by lia. rewrite Ey in E1.
+      destruct (html_runs_cursor cx row 0 spans Hw) as (pre & c & post & Et & Hh & Hr); [lia|exact E1|].
+      exists spans, pre, c, post. splits_; auto; try lia.
+    + assert (Hn' : nthz rest (cy - (y + 1)) = Some row).
+      { unfold nthz in *. destruct (cy - y <? 0) eqn:Ea; [discriminate|]. destruct (cy - (y + 1) <? 0) eqn:Eb; [lia|].
+        replace (Z.to_nat (cy - y)) with (S (Z.to_nat (cy - (y + 1)))) in Hn by lia. exact Hn. }
+      destruct (IH (y + 1) more row E2 ltac:(lia) Hn' Hw Hk) as (spans' & pre & c & post & Hs & Et & Hh & Hr).
+      exists spans', pre, c, post. splits_; auto; try lia.
+      unfold nthz in *. destruct (cy - y <? 0) eqn:Ea; [lia|]. destruct (cy - (y + 1) <? 0) eqn:Eb; [lia|].
+      replace (Z.to_nat (cy - y)) with (S (Z.to_nat (cy - (y + 1)))) by lia. exact Hs.
+Qed.
+
+(* with the canvas cursor on a cell of the canvas, exactly one span is highlighted, it is one character, and
+   it is the character that covers the cursor column of the cursor row *)
+Theorem html_cursor_cell_lemma maxrow rows cx cy out row :
+  html_draw maxrow rows (Some (cx, cy)) = Ok out ->
+  nthz rows cy = Some row -> nonneg_widths (row_text row) -> 0 <= cx < calc_width (row_text row) ->
+  total_swapped out = 1 /\
+  exists spans pre c post, nthz out cy = Some spans /\ row_text row = pre ++ c :: post /\
+     one_highlight spans pre c post /\ calc_width pre <= cx < calc_width pre + snd c.
+Proof.
+  intros H Hn Hw Hk. pose proof (html_exact_lemma _ _ _ _ H) as (_ & Hle & _ & _).
+  unfold html_draw in H. destruct (negb (maxrow =? zlen rows)); [discriminate|].
+  replace cy with (cy - 0) in Hn by lia.
+  destruct (html_rows_cursor cx cy rows 0 out row H ltac:(lia) Hn Hw Hk) as (spans & pre & c & post & Hs & Et & Hh & Hr).
+  replace (cy - 0) with cy in Hs by lia.
+  split; [|exists spans, pre, c, post; auto].
+  (* at least one: the row cy contains a swapped span *)
+  assert (Hone : 1 <= total_swapped out).
+  { clear -Hs Hh. destruct Hh as (s1 & a & s2 & -> & _). revert cy Hs. induction out as [|r out IH]; intros cy Hs.
+    - unfold nthz in Hs. destruct (cy <? 0); [discriminate|]. destruct (Z.to_nat cy); discriminate.
+    - cbn [total_swapped]. assert (Hnn : forall l, 0 <= n_swapped l) by (intros; unfold n_swapped; apply zlen_nonneg).
+      assert (Htn : forall o, 0 <= total_swapped o) by (induction o; cbn [total_swapped]; [lia|pose proof (Hnn a0); lia]).
+      unfold nthz in Hs. destruct (cy <? 0) eqn:E; [discriminate|]. destruct (Z.to_nat cy) eqn:En.
+      + cbn in Hs. inversion Hs; subst r. rewrite n_swapped_app. unfold n_swapped at 2. cbn [filter hs_swapped].
+        rewrite zlen_cons. pose proof (Hnn s1). pose proof (zlen_nonneg (filter hs_swapped s2)). pose proof (Htn out). lia.
+      + cbn in Hs. specialize (IH (Z.of_nat n)). unfold nthz in IH.
+        destruct (Z.of_nat n <? 0) eqn:E2; [lia|]. rewrite Nat2Z.id in IH. specialize (IH Hs). pose proof (Hnn r). lia. }
+  lia.
+Qed.
